@@ -19,6 +19,14 @@ class CpuTimeout(BaseException):
     Derives from BaseException so that `except Exception` inside Polar / sympy cannot swallow it."""
 
 
+TAINTED = False  # set when a CpuTimeout was injected: process-global caches (sympy CRootOf intervals, lru
+                 # caches being filled) may be half-updated, so the worker is replaced after the current task
+
+
+def tainted():
+    return TAINTED
+
+
 class cpu_limit:
     """Context manager: raise CpuTimeout after `secs` seconds of CPU time (user+sys) of this process."""
 
@@ -33,9 +41,12 @@ class cpu_limit:
         signal.setitimer(signal.ITIMER_PROF, self.secs)
         return self
 
-    def __exit__(self, *a):
+    def __exit__(self, et, ev, tb):
+        global TAINTED
         signal.setitimer(signal.ITIMER_PROF, 0)
         signal.signal(signal.SIGPROF, self.old)
+        if et is not None and issubclass(et, CpuTimeout):
+            TAINTED = True
         return False
 
 
@@ -56,7 +67,11 @@ def _worker_main(conn, init, func):
             except BaseException as e:  # harness error, reported as such
                 res = {"status": "harness_error", "error": "%s: %s" % (type(e).__name__, e),
                        "trace": traceback.format_exc()[-2000:]}
+            if TAINTED and isinstance(res, dict):
+                res["_restart_worker"] = True
             conn.send((idx, res))
+            if TAINTED:
+                break
     except (EOFError, KeyboardInterrupt):
         pass
     finally:
@@ -146,6 +161,9 @@ def run_pool(tasks, func, init=None, procs=None, recycle=40, hard_timeout=600.0,
                     w.busy = None
                     w.done += 1
                     finished += 1
+                    if isinstance(res, dict) and res.pop("_restart_worker", False):
+                        w.kill()
+                        workers[i] = _W(ctx, init, func)
                     yield idx, res
                 elif now - w.busy[1] > hard_timeout:
                     idx = w.busy[0]
